@@ -136,6 +136,68 @@ props["C10"]["manifest"] = {
     "technique": "Lean theorems on modelled failure sites + failing-input search (token soups, grammar-directed ill-formed terms, corpus token mutations, arbitrary strings) with panic/hang/location oracles",
 }
 
+FORMATTER_STREAMS = ("every maintained .zy/.zyi/.zydeco source as it is; per file 4 (quick) / 40 (thorough) variants - white space and blank lines inserted at token gaps, comments of six kinds (line, tail, own-line, block, nested block, multi-line block) inserted at 1-4 random token gaps, or the file unchanged - two thirds of them under a random @[format(width(1..200), indent(1..8), layout(preserve|blank_lines|ignore), parentheses(minimal|preserve), verbatim)] directive; horizontal-spacing pairs; every literal spelling of a 40-entry table in three positions; sources broken by one inserted token. Each input is formatted in-process by PrettyFormatter (30 s watchdog, catch_unwind) and, as a real file, by the CLI's SourceFormatter")
+
+props["C12"] = {
+    "harness": "c12",
+    "harness_args": ["--only", "c12"],
+    "level": "other",
+    "nontrivial": r"^(c12 (spell|read) |# (comment|space|plain|corpus|literal|broken|hbase|hspace):)",
+    "timeout": {"quick": 1500, "thorough": 10800},
+    "rule": "inputs: " + FORMATTER_STREAMS + ". Oracles for C12: the formatter returns (no panic, no hang); its output parses; SourceUnitDesugarer output of input and output is identical (the repository's own structural printer); a file that does not parse is byte-for-byte unchanged after `fmt` and the error is reported; the file written is the text rendered. String literal spelling is compared with the Lean model on random strings over an alphabet of special characters (`c12 spell`, `c12 read`).",
+    "explanation": "pretty.rs is a 4,500-line combinator printer over an external layout library; it is not modelled, so totality and meaning preservation are decided by search with an exact oracle (desugared structure equal), not by a theorem. Kernel-checked: the one place where the printer invents text rather than copying tokens - string literal spelling - round-trips through the lexer's reader for every string (this is the defect repaired by fix: 9aa2731 and 69bbb8b, found by this check).",
+    "trusted_base": [KERNEL, AXIOMS, HARNESS,
+                     "modelled, not verified: PrettyFormatter::string_literal / Display for Meta strings and escape::apply_string_escapes + the StrLit token regex are mirrored by ZV/Model/Escape.lean and compared on every run",
+                     "NOT modelled: the layout algebra (boundaries, guards, RcDoc::fail), parenthesis elision by grammar context, punning, directive scoping - only the search can exhibit a failure there",
+                     "the meaning oracle trusts the repository's parser and desugarer (both sides of the comparison go through them)"],
+    "assumptions": ["a formatter call that has not returned after 30 s is reported as not terminating"],
+}
+props["C12"]["manifest"] = {
+    "text": "Partial by nature: the printer is not modelled. Every maintained source and thousands of white-space / comment / directive variants are formatted; the output must parse and desugar to the identical structure, an unparseable file must be left untouched, and the CLI must write exactly the rendered text; any panic, hang, parse failure or structural difference is a violation with the input as replay. String literal spelling (where the printer does not copy tokens) is proved to round-trip for every string in Lean and compared with the real printer and reader. Defects found on the pinned tree: two fixed (string spelling), three recorded as known findings (render failure on comments in unconventional gaps, exponential layout search at narrow widths, line comment glued to the preceding token).",
+    "note": "Level `other`: search with exact oracles, plus one kernel-checked slice. Trusted: harness, the repository's parser/desugarer as the meaning oracle.",
+    "technique": "failing-input search over corpus variants and directive combinations with reparse + desugared-structure oracle and CLI file oracle; Lean theorem + correspondence for string literal spelling",
+}
+
+props["C13"] = {
+    "harness": "c12",
+    "harness_args": ["--only", "c13"],
+    "level": "other",
+    "model_is_oracle": True,
+    "nontrivial": r"^c13 accounts ",
+    "timeout": {"quick": 1500, "thorough": 10800},
+    "rule": "inputs: " + FORMATTER_STREAMS + ". For every formatted input, input and output are scanned by the harness (raw token boundaries from the logos stream, comment nesting counted independently of trivia.rs) into content tokens, keywords, punctuation and comments; the Lean oracle ZV.Account.accounts decides whether, after the documented rewrites (redundant parentheses, pun spelling, layout, re-indented block comment continuation lines), the output has exactly the input's comments (kind and text, in order: none lost, duplicated, altered or reordered), exactly its content tokens in order, and no comment moved in front of a content token it used to follow.",
+    "explanation": "The Lean definition `accounts` IS the decision for each file (model_is_oracle): a verdict other than ok is a violation with the file as replay. Theorems say what the verdict means (ok iff same comment list, same content list, no backward move; layout tokens never matter; a dropped or duplicated comment is always reported) and that comment capture as written in trivia/comment.rs partitions the comments (nothing lost or invented at capture; the expect cannot fire). Forward displacement of a comment to the front of the next entity is the formatter's anchoring rule and is accepted; this is the weakest reading of `same side of the same syntactic element` that the code's design supports.",
+    "trusted_base": [KERNEL, AXIOMS, HARNESS,
+                     "the harness's scanner (fmt.rs items): token boundaries come from the repository's logos token definitions",
+                     "modelled, not verified: CommentCapture::new (anchoring) is mirrored by ZV/Model/Capture.lean but not compared at run time (its types are crate-private); the end-to-end accounting covers it",
+                     "NOT modelled: comment emission in pretty.rs (with_leading_comments / with_before_arm_comments / with_trailing_comments), attached text blocks, verbatim copying - covered by the accounting of every formatted file only"],
+    "assumptions": [],
+}
+props["C13"]["manifest"] = {
+    "text": "Every formatted file (corpus, white-space / comment / directive variants with comments at random token gaps) is accounted for by a Lean oracle: same comments with the same text in the same order, same content tokens, no comment moved in front of a token it followed. The oracle's meaning is kernel-checked (what ok implies, that dropped / duplicated comments are always reported, that layout tokens never matter) together with a mirror of comment capture (partition, anchor is the next entity). One defect class on the pinned tree is a known finding (a line comment glued to the preceding token is swallowed by it).",
+    "note": "Level `other`: the printer's emission code is not modelled; each run decides only the files it formats. Trusted: harness scanner.",
+    "technique": "Lean accounting oracle (decides every formatted file) + theorems about the oracle and comment capture + failing-input search over comment placements and directives",
+}
+
+props["C14"] = {
+    "harness": "c12",
+    "harness_args": ["--only", "c14"],
+    "level": "other",
+    "nontrivial": r"^# (comment|space|plain|corpus|literal|broken|hbase|hspace):",
+    "timeout": {"quick": 1500, "thorough": 10800},
+    "rule": "inputs: " + FORMATTER_STREAMS + ". Oracles for C14: format(format(x)) = format(x) byte for byte (on failure the third pass tells creep from a two-step convergence); the output ends with exactly one newline; a source and its horizontally re-spaced twin (outside verbatim regions) format to the same text; on a real file `check_path` reports changed exactly when `format_path` modifies the file, never writes, and both agree with the in-process rendering.",
+    "explanation": "The printer is not modelled, so idempotence and canonicity are decided by search with exact byte oracles. Kernel-checked: the command-line adapter (format.rs / format_sources in main.rs) over an abstract renderer - `--check` reports changed iff `fmt` would modify, never writes, unparseable files are untouched, exit status.",
+    "trusted_base": [KERNEL, AXIOMS, HARNESS,
+                     "modelled, not verified: SourceFormatter::{format_path, check_path} and format_sources are mirrored by ZV/Model/FmtCli.lean; the real SourceFormatter is exercised on every input and compared with the byte oracles, not with the model line by line",
+                     "NOT modelled: layout intentions, line separation, directive scoping in pretty.rs / intention.rs"],
+    "assumptions": [],
+}
+props["C14"]["manifest"] = {
+    "text": "Partial by nature: idempotence, the single trailing newline, spacing-insensitivity and check/write agreement are tested byte for byte on every maintained source and thousands of white-space / comment / directive variants; the CLI adapter's decision logic is proved in Lean over an abstract renderer. Non-idempotence found on the pinned tree is recorded as known findings by class (block comment continuation lines re-indented further on every pass; narrow explicit widths converge only on the second pass; verbatim directive with comments; glued line comment).",
+    "note": "Level `other`: search with exact oracles plus a kernel-checked adapter model.",
+    "technique": "failing-input search with byte-exact idempotence / canonicity / check-vs-write oracles; Lean theorems for the CLI adapter",
+}
+
 props["C16"] = {
     "harness": "c16",
     "level": "other",
